@@ -1,0 +1,14 @@
+//go:build verif
+
+// Contracts for the deductive verifier in /verif (comment-only file).
+// Property C17: the read-caching selector starts a replication only for
+// NOT_FOUND from the fast backend, at most once per read, and passes every
+// other error through unchanged.
+package readcaching
+
+//@ func (*readCachingBlobAccess).getBlobReplicatorSelector$1
+//@   requires observedErr != nil
+//@   ensures [errors-pass-through] old(replicator) == nil || code(observedErr) != NotFound ==>
+//@         result0 == nil && result1 == observedErr && replicator == old(replicator)
+//@   ensures [replicate-at-most-once] old(replicator) != nil && code(observedErr) == NotFound ==>
+//@         result0 == old(replicator) && result1 == nil && replicator == nil
